@@ -24,30 +24,44 @@ Section Sched.
     (forall o s, Snd s -> Snd (F o s)) -> forall s, Snd s -> Snd (fold_left (fun s o => F o s) ops s).
   Proof. intros HF. induction ops as [|o r IH]; intros s H; simpl; auto. Qed.
 
+  Lemma drive_lookup_sound (run : list op -> sst -> sst) i inj :
+    (forall ops s, Snd s -> Snd (run ops s)) ->
+    forall n q b s, Snd s -> Snd (drive_lookup sro LP RP run i inj n q b s).
+  Proof.
+    intros RO. induction n as [|n IHn]; intros q b s H; [exact H|]. simpl.
+    destruct (threads (sstate s) i) as [t|]; [|exact H].
+    destruct (cont t) as [|ins rest]; [exact H|].
+    apply IHn. apply Snd_emit.
+    destruct ins; try exact H; try (apply RO; exact H).
+    destruct b; [apply RO; exact H|exact H].
+  Qed.
+
+  Lemma drive_register_sound (run : list op -> sst -> sst) i inj inj2 :
+    (forall ops s, Snd s -> Snd (run ops s)) ->
+    forall n s, Snd s -> Snd (drive_register sro LP RP run i inj inj2 n s).
+  Proof.
+    intros RO. induction n as [|n IHn]; intros s H; [exact H|]. simpl.
+    destruct (threads (sstate s) i) as [t|]; [|exact H].
+    destruct (cont t) as [|ins rest]; [exact H|].
+    apply IHn.
+    destruct ins; try (apply Snd_emit; exact H).
+    apply RO. apply Snd_emit. apply RO. exact H.
+  Qed.
+
   Lemma run_op_sound fuel : forall o s, Snd s -> Snd (run_op sro LP RP fuel o s).
   Proof.
-    induction fuel as [|f IH]; intros o s H; simpl; [exact H|].
+    induction fuel as [|f IH]; intros o s H; [exact H|].
     assert (RO : forall ops s, Snd s -> Snd (fold_left (fun s o => run_op sro LP RP f o s) ops s)).
     { intros ops. apply Snd_fold. intros o0 s0. apply IH. }
     destruct o as [id k inj|id ups inj inj2].
-    - match goal with |- Snd (?F _ _ _ ?s0) =>
-        assert (D : forall n q b s1, Snd s1 -> Snd (F n q b s1)) end.
-      { induction n as [|n IHn]; intros q b s1 H1; [exact H1|]. simpl.
-        destruct (threads (sstate s1) (ntid (sstate s))) as [t|]; [|exact H1].
-        destruct (cont t) as [|ins rest]; [exact H1|].
-        apply IHn. apply Snd_emit.
-        destruct ins; try exact H1; try (apply RO; exact H1).
-        destruct b; [apply RO; exact H1|exact H1]. }
-      apply D. apply Snd_emit, Snd_note, H.
-    - match goal with |- Snd (?F _ ?s0) =>
-        assert (D : forall n s1, Snd s1 -> Snd (F n s1)) end.
-      { induction n as [|n IHn]; intros s1 H1; [exact H1|]. simpl.
-        destruct (threads (sstate s1) (ntid (sstate s))) as [t|]; [|exact H1].
-        destruct (cont t) as [|ins rest]; [exact H1|].
-        apply IHn.
-        destruct ins; try (apply Snd_emit; exact H1).
-        apply RO. apply Snd_emit. apply RO. exact H1. }
-      apply D. apply Snd_emit, Snd_note, H.
+    - change (Snd (drive_lookup sro LP RP (fun ops s => fold_left (fun s o => run_op sro LP RP f o s) ops s)
+                                (ntid (sstate s)) inj lookup_fuel 0 false
+                                (emit sro LP RP (note s id) (SpawnLookup k)))).
+      apply drive_lookup_sound; [exact RO|]. apply Snd_emit, Snd_note, H.
+    - change (Snd (drive_register sro LP RP (fun ops s => fold_left (fun s o => run_op sro LP RP f o s) ops s)
+                                  (ntid (sstate s)) inj inj2 register_fuel
+                                  (emit sro LP RP (note s id) (SpawnRegister ups)))).
+      apply drive_register_sound; [exact RO|]. apply Snd_emit, Snd_note, H.
   Qed.
 
   Lemma run_ops_sound fuel ops s : Snd s -> Snd (run_ops sro LP RP fuel ops s).
